@@ -444,6 +444,18 @@ func (p *OAuthProxy) OAuthCallback(rw http.ResponseWriter, req *http.Request) {
 		return
 	}
 
+	// Every flow record minted by OAuthStart carries a random session id. A sealed value of another
+	// type (e.g. a session cookie, which is sealed under the same key) also opens here, with every
+	// field of the flow record empty: that is not a flow this proxy started.
+	if stateParameter.SessionID == "" {
+		tags = append(tags, "error:state_parameter_error")
+		p.StatsdClient.Incr("application_error", tags, 1.0)
+		logger.WithRemoteAddress(remoteAddr).Info(
+			"state parameter does not carry a flow record")
+		p.ErrorPage(rw, req, http.StatusBadRequest, "Bad Request", "Bad Request")
+		return
+	}
+
 	c, err := p.csrfStore.GetCSRF(req)
 	if err != nil {
 		tags = append(tags, "error:csrf_cookie_error")
